@@ -5,7 +5,7 @@ CONSTANTS
   Kind = "nameaddr"
   Atoms <- AtomsQ2
   Prefix <- PfxQ
-  MaxLen = 13
+  MaxLen = 12
   Cfgs <- CfgsNA8
   Junk = 34
   EmitOn = TRUE
